@@ -101,7 +101,8 @@ func buildVocab(repo string) (*vocab, error) {
 }
 
 func accepted(name, value string) bool {
-	return len(preprocessText(name+":"+value)) != 0
+	out := preprocessText(name + ":" + value)
+	return len(out) != 0 && !crashedLast
 }
 
 // discover fills acc: which atoms each property accepts alone (the real validator is the oracle).
